@@ -308,3 +308,46 @@ def run(ctx):
                     ok = bool(st)
                     why = 'stores the matched index into the iterator before returning it' if ok else 'returns %s WITHOUT recording the matched index %s: the iterator designates a different chunk' % (e, K)
                 ctx.ob('MATCH-RESULT', '%s:%s' % (f.name, cs), ok, f.loc(r), why, None)
+
+    # ------------------------------------------------------------------ PAD-AGREE
+    ctx.rule('PAD-AGREE', 'psf_save_write_chunk records the payload length rounded up to a multiple of 4 (`while (len & 3) len ++`) and the header writers serialise that many bytes from the '
+             'private copy made by psf_memdup: the allocation size expression of psf_memdup, evaluated for every n in 0..63 (all residues, exact integer evaluation of the expression tree), is >= the rounded length', floor=1)
+    md = prog.fn('psf_memdup', 'common.c')
+    al = [c for c in md.calls() if c.get('callee') in ('calloc', 'malloc')]
+    ctx.require(al, 'psf_memdup has no allocation')
+    szn = md.args(al[0])[-1] if al[0]['callee'] == 'malloc' else md.args(al[0])[1]
+    cntn = md.args(al[0])[0] if al[0]['callee'] == 'calloc' else None
+    pn = md.params[1]['n']
+
+    def ev(f_, n_, env):
+        n_ = f_.unwrap(n_)
+        k_ = n_['k']
+        if n_.get('v') is not None and k_ != 'DeclRefExpr':
+            return n_['v']
+        if k_ == 'DeclRefExpr':
+            return env[n_['n']]
+        if k_ == 'ConditionalOperator':
+            c_, a_, b_ = n_['kids']
+            return ev(f_, f_.N[a_], env) if ev(f_, f_.N[c_], env) else ev(f_, f_.N[b_], env)
+        if k_ == 'BinaryOperator':
+            x_, y_ = ev(f_, f_.N[n_['kids'][0]], env), ev(f_, f_.N[n_['kids'][1]], env)
+            return {'+': x_ + y_, '-': x_ - y_, '*': x_ * y_, '&': x_ & y_, '|': x_ | y_, '>>': x_ >> y_, '<<': x_ << y_, '/': x_ // y_ if y_ else 0, '%': x_ % y_ if y_ else 0,
+                    '==': int(x_ == y_), '!=': int(x_ != y_), '<': int(x_ < y_), '>': int(x_ > y_), '<=': int(x_ <= y_), '>=': int(x_ >= y_), '&&': int(bool(x_) and bool(y_)), '||': int(bool(x_) or bool(y_))}[n_['op']]
+        if k_ == 'UnaryOperator' and n_.get('op') in ('!', '-', '~'):
+            x_ = ev(f_, f_.N[n_['kids'][0]], env)
+            return {'!': int(not x_), '-': -x_, '~': ~x_}[n_['op']]
+        raise KeyError(k_)
+    sw = prog.fn('psf_save_write_chunk', 'chunk.c')
+    rounds = any(n_['k'] == 'WhileStmt' and sw.s(n_['cond']).replace(' ', '') == '(len&3)' for n_ in sw.walk())
+    bad = []
+    try:
+        for n0 in range(64):
+            a_ = ev(md, szn, {pn: n0}) * (ev(md, cntn, {pn: n0}) if cntn is not None else 1)
+            want = ((n0 + 3) & ~3) if rounds else n0
+            if a_ < want:
+                bad.append((n0, a_, want))
+        ctx.ob('PAD-AGREE', 'psf_memdup', not bad, md.loc(al[0]), 'allocation covers the recorded (padded) length for every n in 0..63' if not bad else
+               'for payload lengths %s the private copy holds %s bytes but %s are recorded and later read from it: heap over-read of the copy into the file' % ([b[0] for b in bad[:6]], [b[1] for b in bad[:6]], [b[2] for b in bad[:6]]), None)
+    except KeyError as e_:
+        ctx.ob('PAD-AGREE', 'psf_memdup', False, md.loc(al[0]), 'allocation size expression uses a construct the evaluator does not model (%s)' % e_, None)
+
